@@ -52,6 +52,10 @@ def panel_spec(draw, max_geos=6, min_geos=1, max_dates=30, flat=False):
       'offset': draw(st.sampled_from([0, 0, 0, 0, 2 ** 24, 2 ** 26])),
       # readings stamped at noon instead of midnight
       'hour': draw(st.sampled_from([0, 0, 0, 12])),
+      # geo column dtype: Python ints / ints and strings in an object column, pandas string dtype
+      'geo_dtype': draw(st.sampled_from([None, None, None, None, 'object', 'mixed', 'string'])),
+      # rows sorted like a database export (ascending geo, dates newest first / in another fixed order; newest date first)
+      'row_order': draw(st.sampled_from([None, None, None, None, None, 'geo-asc-date-desc', 'geo-asc-date-perm', 'date-desc-major'])),
   }
 
 
@@ -139,8 +143,11 @@ def search_spec(draw, max_geos=6, min_geos=1, constraint_p=0.5, allow_budget=Tru
   elig = draw(eligibility_spec(panel['ids'], elig_style))
   params = draw(params_spec(panel['n_test'], panel['n_dates'], len(panel['ids']), constraint_p, allow_budget, allow_share, degenerate,
                             tight_sizes))
-  return {'panel': panel, 'elig': elig, 'params': params,
-          'history': draw(st.sampled_from([None, None, None, None, 'shared-data', 'reused-data', 'other-search-first', 'params-mutated', 'shared-eligibility']))}
+  history = draw(st.sampled_from([None, None, None, None, 'shared-data', 'reused-data', 'other-search-first', 'params-mutated', 'shared-eligibility']))
+  if history == 'shared-data' and params['n_geos_max'] is None and len(panel['ids']) >= 3 and draw(st.booleans()):
+    # the measured searcher is capped, the other one on the same data object is not (its geo list is a superset)
+    params['n_geos_max'] = len(panel['ids']) - 1
+  return {'panel': panel, 'elig': elig, 'params': params, 'history': history}
 
 
 BOUNDARY_SPLITS = [(3, 5, 2.0 / 3), (3, 4, 1.0 / 3), (2, 3, 0.5), (2, 5, 1.5), (1, 2, 1.0), (1, 3, 2.0), (2, 4, 1.0), (4, 5, 0.25), (5, 6, 0.2)]
